@@ -7,4 +7,4 @@ Definition gen_body (p : nat) (g : list Z) (v : list Z) : list Z * list Z :=
   (map (fun x => (x + 1)%Z) g,
    (fix go (i : nat) (l : list Z) := match l with [] => [] | x :: r => (x + Z.of_nat (p + 1 + i))%Z :: go (S i) r end) 0%nat v).
 Definition step_gen := step gen_body.
-Extraction "../.cache/ml/c09_model.ml" step_gen fresh inst_vars judge ev_step ev_fresh Z.add Z.mul Z.opp Z.div_eucl.
+Extraction "../.cache/ml/c09_model.ml" step_gen fresh inst_vars judge ev_step ev_fresh per_step per_fresh Z.add Z.mul Z.opp Z.div_eucl.
